@@ -1,4 +1,4 @@
 """Contract sidecars for top-sim/topsim.  Importing this package loads every module into one registry."""
 from .base import REG
-from . import task, delay, config, cluster, deps, planner, buffer, world, scheduler, telescope, simulation   # noqa
+from . import task, delay, config, cluster, deps, planner, buffer, world, scheduler, telescope, simulation, algorithms   # noqa
 from .notes import PROPERTY_NOTES  # noqa
